@@ -32,7 +32,7 @@ theorem writeFloat_done_text (feats : Features) (f : Fmt) (fmt : Format) (o : WO
       FormatError.isValid feats fmt.raw = true ∧
       (f.isSpecial bits = false → backend feats fmt = .decimal) ∧
       (f.isSpecial bits = true → (if f.isNaN bits then o.nan else o.inf) ≠ none) := by
-  unfold writeFloat at h
+  unfold writeFloat writeFloatB at h
   dsimp only at h
   split at h
   · cases h
